@@ -309,6 +309,10 @@ TypeOK == /\ nodes \subseteq Names /\ bt \subseteq Names /\ gskip \subseteq Name
 LookupOK == \A name \in Names : proj[name] = IdealLookup(name)
 ProjOK   == \A name \in Names : proj[name] = TrieLookup(name)
 
+\* ... and for any name that no registration, skip list or built-in exclusion covers (there
+\* always is one outside the finite universe of the model) the lookup is the root conf
+RootOK == root = ActiveAll
+
 \* the path hook is installed exactly while something is registered
 HookOK == hook <=> (ActiveAll # NoConf \/ \E p \in Names : greg[p] # NoConf)
 
